@@ -12,6 +12,7 @@ import (
 	"sort"
 	"strings"
 	"testing"
+	"testing/synctest"
 	"time"
 
 	"github.com/rs/zerolog"
@@ -31,16 +32,20 @@ func init() {
 
 // stack is one shim over one reference agent.
 type stack struct {
-	cat   *catalog
-	ref   *refagent.Agent
-	peer  *refagent.Peer
-	shim  shimagent.ShimAgent
-	a, b  net.Conn
-	done  chan struct{}
-	model shimmodel.State
-	fired int         // faults fired so far
-	kept  []keptReply // replies of raw relays that the caller still holds
-	acted []string    // identities another client added to the underlying agent during the call in progress
+	cat       *catalog
+	ref       *refagent.Agent
+	peer      *refagent.Peer
+	shim      shimagent.ShimAgent
+	a, b      net.Conn
+	done      chan struct{}
+	model     shimmodel.State
+	fired     int         // faults fired so far
+	kept      []keptReply // replies of raw relays that the caller still holds
+	waitIdle  bool        // the plan has acts right after an answer: wait for the peer to be idle before judging a call
+	slowNow   bool        // a slow reply was delivered during the call in progress
+	gaveUp    bool        // the shim failed a call while the underlying agent was merely slow: it may have closed the connection
+	abandoned []SStep     // calls the shim gave up on while the agent was slow (their requests are carried out later)
+	acted     []string    // identities another client added to the underlying agent during the call in progress
 	// actMayPurge: in-memory certificates that an orphan / expiry purge may have dropped at some moment of a call
 	// during which another client changed the underlying agent (consumed by resync)
 	actMayPurge map[string]bool
@@ -116,7 +121,16 @@ func newStack(p *SPlan, noUp bool, o *sim.Outcome) *stack {
 			o.Fault("upstream_changed_by_another_client_during_a_call")
 		}
 	}
-	s.peer.OnSlow = func(kind string, secs int64) { o.Fault("upstream_slow_reply"); o.Probe("slow_reply/" + kind) }
+	s.peer.OnSlow = func(kind string, secs int64) {
+		o.Fault("upstream_slow_reply")
+		o.Probe("slow_reply/" + kind)
+		s.slowNow = true
+	}
+	for _, f := range p.Faults {
+		if strings.HasPrefix(f.Fault, refagent.ActAfterPrefix) {
+			s.waitIdle = true
+		}
+	}
 	go func() { s.peer.Serve(s.b); close(s.done) }()
 	return s
 }
@@ -158,6 +172,7 @@ type stepRes struct {
 	sigErr   string
 	bytes    []byte
 	faulted  bool
+	slow     bool   // the underlying agent took its time over a request of this call (and answered honestly)
 	mustFail string // a fault of this call turned a successful answer of the underlying agent into a failure
 }
 
@@ -204,7 +219,13 @@ func (s *stack) call(f func() error) (res stepRes) {
 		}()
 		res.err = f()
 	}()
+	if s.waitIdle && res.panicked == nil && !s.closed {
+		// an act of another client right after the last answer of this call must have happened before the call is judged
+		synctest.Wait()
+	}
 	res.faulted = s.fired > before || len(s.acted) > 0 // (what another client did during the call relaxes the comparison like a fault)
+	res.slow = s.slowNow
+	s.slowNow = false
 	res.mustFail = s.mustFail
 	return res
 }
@@ -345,6 +366,12 @@ func runHistory(p *SPlan, noUp bool, o *sim.Outcome, sigParts *[]string) []obsLi
 		o.Fail("C10.construct", "construct_error_swallowed", 0, "[%s] the underlying agent failed while the shim was being constructed (%v) but construction reported success", mode, s.firedLog)
 		return nil
 	}
+	if err != nil && cres.slow && s.fired == 0 {
+		// the underlying agent was merely slow while the shim was being constructed and the shim did not wait for it:
+		// giving up on a slow peer is a legitimate policy (an error is reported, nothing is served)
+		o.Probe("gave_up_on_slow_underlying_agent")
+		return nil
+	}
 	if err != nil {
 		if s.fired > 0 {
 			o.Probe("construct_failure_reported")
@@ -450,6 +477,10 @@ func runHistory(p *SPlan, noUp bool, o *sim.Outcome, sigParts *[]string) []obsLi
 							} else {
 								o.Probe("signed_through_signer")
 							}
+						} else if r2.slow || s.gaveUp {
+							// (the shim did not wait for a slow agent: see the give-up rule below)
+							s.gaveUp = true
+							o.Probe("gave_up_on_slow_underlying_agent")
 						} else if !r2.faulted && !s.closed && !m.UpLocked {
 							// the signer was listed a moment ago; signing through it must work unless the clock rule fires
 							mc := m.Clone()
@@ -652,7 +683,16 @@ func runHistory(p *SPlan, noUp bool, o *sim.Outcome, sigParts *[]string) []obsLi
 			o.Probe("closed_unlocked")
 			return lists
 		}
-		if res.faulted || s.closed {
+		if res.slow && res.err != nil && res.panicked == nil {
+			// The underlying agent answered honestly but late and the shim did not wait for it. Giving up on a slow peer
+			// is a legitimate policy (the property speaks of failures surfacing as errors, not of unbounded patience) -
+			// provided nothing is corrupted: the shim may close the connection, later calls may fail, but no call may
+			// succeed with somebody else's answer, sign with what it must not, or unlock with a wrong passphrase.
+			s.gaveUp = true
+			s.abandoned = append(s.abandoned, st) // the request is still on its way: it takes effect when the agent gets to it
+			o.Probe("gave_up_on_slow_underlying_agent")
+		}
+		if res.faulted || s.closed || s.gaveUp {
 			// ---- narrow relaxation after an injected upstream fault ----
 			o.Probe("op_under_fault")
 			if res.mustFail != "" && res.err == nil && res.panicked == nil {
@@ -675,6 +715,17 @@ func runHistory(p *SPlan, noUp bool, o *sim.Outcome, sigParts *[]string) []obsLi
 					}
 				}
 				o.Probe("listing_under_fault_discloses_nothing")
+			}
+			if st.Op == "forward" && res.err == nil && res.panicked == nil && !res.faulted {
+				// (no fault touched this relay itself: it is judged because an earlier call gave up on a slow agent)
+				body := rawBody(st.Arg)
+				req := append([]byte{byte(st.N)}, body...)
+				if !bytes.Equal(res.bytes, refagent.EchoReply(req)) {
+					o.Fail("C10.forward", "forward_bytes_under_fault", i, "%s: the relay succeeded with %d bytes (%x...) that are not the answer to this request (the upstream echoes EE||request) [%v]", tag, len(res.bytes), res.bytes[:min(len(res.bytes), 24)], s.firedLog)
+				}
+			}
+			if st.Op == "unlock" && res.err == nil && res.panicked == nil && pre.Locked && want == shimmodel.Err {
+				o.Fail("C08.lock_result", "unlock_accepted_under_fault", i, "%s(%q): succeeded with a wrong passphrase on a locked shim [%v]", tag, st.Arg, s.firedLog)
 			}
 			if st.Op == "sign" && res.err == nil && res.panicked == nil && !wasLocked {
 				// ... and no signature with a YSSHCA certificate of the underlying agent in no-upstream mode
@@ -896,7 +947,13 @@ func (s *stack) resync(pre shimmodel.State, st SStep, o *sim.Outcome, i int, tag
 		before[id.Blob] = true
 	}
 	for _, r := range real {
-		if !before[r] && !(st.Op == "add" && r == st.Role) {
+		abandonedAdd := false
+		for _, ab := range s.abandoned {
+			if ab.Op == "add" && ab.Role == r {
+				abandonedAdd = true
+			}
+		}
+		if !before[r] && !(st.Op == "add" && r == st.Role) && !abandonedAdd {
 			o.Fail("C10.fault_damage", "fault_added", i, "%s: after a faulted call the upstream holds %s which nobody added", tag, r)
 		}
 	}
@@ -913,6 +970,11 @@ func (s *stack) resync(pre shimmodel.State, st SStep, o *sim.Outcome, i int, tag
 		explained := st.Op == "removeall" || (st.Op == "remove" && st.Role == id.Blob) ||
 			(id.IsCert && shimmodel.Validity(id.VA, id.VB, now) != shimmodel.Valid) ||
 			(pre.MemHas(id.Blob) && s.actMayPurge[id.Blob])
+		for _, ab := range s.abandoned {
+			if ab.Op == "removeall" || (ab.Op == "remove" && ab.Role == id.Blob) {
+				explained = true
+			}
+		}
 		if !explained {
 			o.Fail("C10.fault_damage", "fault_removed", i, "%s: after a faulted call the upstream lost %s", tag, id.Blob)
 		}
